@@ -437,7 +437,7 @@ impl Gen {
 				// (the first regime of every other stream is a trend with ripple: hundreds of local peaks on one side of the trend)
 				self.shape = if self.calls <= 1 && self.rng.chance(0.5) { 12 + self.rng.below(2) } else { self.rng.below(14) };
 				// steady trends outlast PeriodType::MAX bars; trends with ripple outlast PeriodType::MAX local peaks
-				self.regime_left = if self.shape >= 12 { 600 + self.rng.below(500) } else if self.shape >= 8 { 270 + self.rng.below(200) } else { 20 + self.rng.below(200) };
+				self.regime_left = if self.shape >= 12 { 900 + self.rng.below(400) } else if self.shape >= 8 { 270 + self.rng.below(200) } else { 20 + self.rng.below(200) };
 			}
 			self.regime_left -= 1;
 		} else if self.rng.chance(0.04) {
@@ -466,8 +466,8 @@ impl Gen {
 			7 => self.cur - s * 0.01 * u,                     // monotone down
 			8..=9 => self.cur * (1.0 + 0.004 * (0.5 + u)),    // steady rally (every bar a new high, no pullback)
 			10..=11 => self.cur * (1.0 - 0.004 * (0.5 + u)),  // steady decline
-			12 => self.cur * if self.calls % 2 == 0 { 1.0 + 0.009 * (0.8 + 0.4 * u) } else { 1.0 - 0.003 * (0.8 + 0.4 * u) }, // rally with ripple
-			_ => self.cur * if self.calls % 2 == 0 { 1.0 - 0.009 * (0.8 + 0.4 * u) } else { 1.0 + 0.003 * (0.8 + 0.4 * u) },  // decline with ripple
+			12 => self.cur * if self.calls % 3 < 2 { 1.0 + 0.006 * (0.8 + 0.4 * u) } else { 1.0 - 0.003 * (0.8 + 0.4 * u) }, // rally with ripple
+			_ => self.cur * if self.calls % 3 < 2 { 1.0 - 0.006 * (0.8 + 0.4 * u) } else { 1.0 + 0.003 * (0.8 + 0.4 * u) },  // decline with ripple
 		};
 		self.finish(v)
 	}
